@@ -33,9 +33,12 @@ Pow2(n) == CASE n = 0 -> 1 [] n = 1 -> 2 [] n = 2 -> 4 [] n = 3 -> 8 [] n = 4 ->
 BitOf(byte, k) == (byte \div Pow2(7 - k)) % 2            \* k = 0 is the most significant bit
 
 Rep(n, x) == IF n <= 0 THEN <<>> ELSE [k \in 1..n |-> x]
-RECURSIVE SumFrom(_, _)
-SumFrom(q, i) == IF i > Len(q) THEN 0 ELSE q[i] + SumFrom(q, i + 1)
-Sum(q) == SumFrom(q, 1)
+\* left fold (evaluated iteratively by TLC: edge lists of real tapes are thousands of elements long, too
+\* deep for recursive definitions): Fold(Op, base, <<x1, .., xn>>) = Op(.. Op(Op(base, x1), x2) .., xn)
+SX == INSTANCE SequencesExt
+Fold(Op(_, _), base, seq) == SX!FoldLeft(Op, base, seq)
+Idx(n) == [i \in 1..n |-> i]
+Sum(q) == Fold(LAMBDA a, x : a + x, 0, q)
 HasZero(q) == \E i \in 1..Len(q) : q[i] = 0
 Last(q) == q[Len(q)]
 Front(q) == SubSeq(q, 1, Len(q) - 1)
@@ -57,9 +60,7 @@ FlatFrom(pulses, i) == IF i > Len(pulses) THEN <<>>
                        ELSE Rep(pulses[i][1], pulses[i][2]) \o FlatFrom(pulses, i + 1)
 PulseDurs(b) == FlatFrom(b.pulses, 1)
 
-RECURSIVE DataDursFrom(_, _)
-DataDursFrom(b, i) == IF i > NBits(b) THEN <<>> ELSE BitDurs(b, BitAt(b, i)) \o DataDursFrom(b, i + 1)
-DataDurs(b) == DataDursFrom(b, 1)
+DataDurs(b) == Fold(LAMBDA acc, i : acc \o BitDurs(b, BitAt(b, i)), <<>>, Idx(NBits(b)))
 TailDurs(b) == IF HasData(b) /\ b.tail > 0 THEN <<b.tail>> ELSE <<>>
 
 \* all pulses of a block in order, tagged: "p" tone/pulse, "d" data, "t" tail
@@ -117,15 +118,11 @@ FinalLevel(blocks, segs, gpol) == IF FinalTailDropped(segs) THEN segs[LastTail(s
                                   ELSE EntryLevel(blocks, Len(blocks) + 1, gpol)
 
 \* canonical form: zero-length segments vanish, neighbours at the same level merge
-RECURSIVE CanonFrom(_, _, _)
-CanonFrom(segs, i, acc) ==
-  IF i > Len(segs) THEN acc
-  ELSE LET s == segs[i] IN
-       IF s[2] = 0 THEN CanonFrom(segs, i + 1, acc)
-       ELSE IF Len(acc) > 0 /\ Last(acc)[1] = s[1]
-            THEN CanonFrom(segs, i + 1, [acc EXCEPT ![Len(acc)] = <<s[1], @[2] + s[2]>>])
-            ELSE CanonFrom(segs, i + 1, Append(acc, <<s[1], s[2]>>))
-Canon(segs) == CanonFrom(segs, 1, <<>>)
+CanonStep(acc, s) ==
+  IF s[2] = 0 THEN acc
+  ELSE IF Len(acc) > 0 /\ Last(acc)[1] = s[1] THEN [acc EXCEPT ![Len(acc)] = <<s[1], @[2] + s[2]>>]
+  ELSE Append(acc, <<s[1], s[2]>>)
+Canon(segs) == Fold(CanonStep, <<>>, segs)
 
 \* what an edge list means
 EdgeSegs(edges) == << <<0, edges[1], "w">> >> \o [k \in 1..(Len(edges) - 1) |-> <<(k - 1) % 2, edges[k + 1] - edges[k], "p">>]
@@ -173,8 +170,7 @@ SignalIs(played, segs) ==
 SignalOK(edges, blocks, fe, gpol) == SignalIs(PlayedSignal(edges), TapeSegs(blocks, fe, gpol))
 
 \* time at which segment k of segs starts
-RECURSIVE StartOf(_, _)
-StartOf(segs, k) == IF k <= 1 THEN 0 ELSE segs[k - 1][2] + StartOf(segs, k - 1)
+StartOf(segs, k) == Sum([j \in 1..(k - 1) |-> segs[j][2]])
 
 \* index (into TapeSegs) of the first segment of block i, and per-block facts
 RECURSIVE FirstSegOf(_, _)
@@ -187,14 +183,15 @@ FirstSegOf(blocks, i) ==       \* 1 + number of segments before block i (incl. t
 Prefix(p, q) == Len(p) <= Len(q) /\ \A j \in 1..Len(p) : p[j] = q[j]
 Decodable(zero, one) == Len(zero) > 0 /\ Len(one) > 0 /\ ~HasZero(zero) /\ ~HasZero(one)
                         /\ ~Prefix(zero, one) /\ ~Prefix(one, zero)
-RECURSIVE DecodeFrom(_, _, _, _, _, _)
-DecodeFrom(edges, a, b, zero, one, acc) ==
-  IF a = b THEN acc
-  ELSE LET M(q) == a + Len(q) <= b /\ \A j \in 1..Len(q) : edges[a + j] - edges[a + j - 1] = q[j] IN
-       IF M(one) THEN DecodeFrom(edges, a + Len(one), b, zero, one, Append(acc, 1))
-       ELSE IF M(zero) THEN DecodeFrom(edges, a + Len(zero), b, zero, one, Append(acc, 0))
-       ELSE Append(acc, -1)
-BitsFromEdges(edges, a, b, zero, one) == IF a > b THEN <<-1>> ELSE DecodeFrom(edges, a, b, zero, one, <<>>)
+\* from edge a on: the pulses of a one bit -> 1, of a zero bit -> 0, anything else -> -1 and stop; done at edge b
+BitsFromEdges(edges, a, b, zero, one) ==
+  IF a > b THEN <<-1>>
+  ELSE LET M(q, p) == p + Len(q) <= b /\ \A j \in 1..Len(q) : edges[p + j] - edges[p + j - 1] = q[j]
+           Step(s, i) == IF s.p = b \/ s.bad THEN s
+                         ELSE IF M(one, s.p) THEN [s EXCEPT !.p = @ + Len(one), !.acc = Append(@, 1)]
+                         ELSE IF M(zero, s.p) THEN [s EXCEPT !.p = @ + Len(zero), !.acc = Append(@, 0)]
+                         ELSE [s EXCEPT !.bad = TRUE, !.acc = Append(@, -1)]
+       IN Fold(Step, [p |-> a, acc |-> <<>>, bad |-> FALSE], Idx(b - a)).acc      \* every bit takes at least one edge
 
 -----------------------------------------------------------------------------
 (* Part 2: the generator.  State record:                                     *)
@@ -271,14 +268,19 @@ DropTailEdge(s) ==
   ELSE IF s.tm > 0 THEN [s EXCEPT !.edges = [@ EXCEPT ![Len(@)] = @ - s.tm], !.tl = 0, !.tm = 0, !.mis = 1]
   ELSE LET m == Len(s.edges) - 2
            Clip(r) == <<r[1], IF r[2] > m THEN m ELSE r[2], IF r[3] > m THEN m ELSE r[3], r[4]>> IN
-       [s EXCEPT !.edges = Front(@), !.tl = 0,
-                 !.ranges = IF Len(@) = 0 THEN @ ELSE [@ EXCEPT ![Len(@)] = Clip(@)]]
+       \* (every range that points at the dropped edge: the blocks after the one with the tail may have added no edge)
+       [s EXCEPT !.edges = Front(@), !.tl = 0, !.ranges = [k \in 1..Len(@) |-> Clip(@[k])]]
+\* Named deviation: SkoolKit clips the range of the last data block only (SkClipLastOnly)
+SkDropTailEdge(s) ==
+  IF s.tl = 0 \/ s.tm > 0 THEN DropTailEdge(s)
+  ELSE LET m == Len(s.edges) - 2
+           Clip(r) == <<r[1], IF r[2] > m THEN m ELSE r[2], IF r[3] > m THEN m ELSE r[3], r[4]>> IN
+       [s EXCEPT !.edges = Front(@), !.tl = 0, !.ranges = IF Len(@) = 0 THEN @ ELSE [@ EXCEPT ![Len(@)] = Clip(@)]]
 
 \* ---- folds of the actions (used to judge recorded edge lists)
 RECURSIVE TonesFrom(_, _, _)
 TonesFrom(s, pulses, j) == IF j > Len(pulses) THEN s ELSE TonesFrom(Tone(s, pulses[j][1], pulses[j][2]), pulses, j + 1)
-RECURSIVE BitsFrom(_, _, _)
-BitsFrom(s, b, i) == IF i > NBits(b) THEN s ELSE BitsFrom(DataBit(s, b, BitAt(b, i)), b, i + 1)
+BitsFrom(s, b, i) == Fold(LAMBDA st, j : DataBit(st, b, BitAt(b, j)), s, [j \in 1..(NBits(b) - i + 1) |-> i + j - 1])
 
 RunBlock(s, b, n, islast, gpol) ==
   LET s1 == IF HasPulses(b) THEN TonesFrom(PolarityAdjust(s, b, gpol), b.pulses, 1) ELSE s
